@@ -3072,6 +3072,58 @@ fn advanced_run(cx: &mut Run, level: u8) {
 }
 
 /// ZoSortedStrVec is immutable: one run = one construction from a seeded list + read-out.
+/// Filled up to its documented limit: a FixedLenStrVec packs (offset, length) into 24 + 8 bits, so
+/// its arena holds at most 16 MiB.  Strings are pushed until the container refuses; everything it
+/// accepted must read back - in particular the strings that start at or near offset 2^24.
+fn fixedlen_limit_run<const N: usize>(cx: &mut Run, step: usize) {
+    let mut v: FixedLenStrVec<N> = FixedLenStrVec::new();
+    cx.ev(format!("FixedLenStrVec<{}>::new(); push strings of {} bytes until refused", N, step));
+    let mk = |i: usize| -> String { format!("{:0w$}", i, w = step) };
+    let mut n = 0usize;
+    let cap = (1usize << 24) / step + 8;
+    while n < cap {
+        if v.push(&mk(n)).is_err() {
+            break;
+        }
+        n += 1;
+    }
+    cx.ev(format!("accepted {} strings ({} bytes), then refused", n, n * step));
+    cx.steps = n as u64;
+    cx.nontrivial = n > 1000;
+    if n == cap {
+        cx.probe("never_refused");
+    }
+    if v.len() != n {
+        cx.violate("wrong_value", "FixedLenStrVec.len@arena_limit", format!("len() = {} after {} accepted pushes", v.len(), n));
+        return;
+    }
+    // the last accepted strings, the first, and a stride through the rest
+    let mut idx: Vec<usize> = (n.saturating_sub(6)..n).collect();
+    idx.push(0);
+    idx.extend((0..n).step_by(n / 97 + 1));
+    for i in idx {
+        let want = mk(i);
+        let got = v.get(i).map(|x| x.to_string());
+        if got.as_deref() != Some(want.as_str()) {
+            cx.violate("wrong_sequence", "FixedLenStrVec.get@arena_limit", format!("element {} of {} (pushed at arena offset {}) reads back as {:?}, it was pushed as {:?}", i, n, i * step, got.map(|g| g.chars().take(24).collect::<String>()), want.chars().take(24).collect::<String>()));
+            return;
+        }
+    }
+    if v.get(n).is_some() {
+        cx.violate("wrong_value", "FixedLenStrVec.get@arena_limit", format!("get({}) is Some although only {} strings were accepted", n, n));
+    }
+}
+
+fn fixedlen_limit(cx: &mut Run) {
+    let cfg = cx.src.chan("cfg");
+    match cfg.below(4) {
+        0 => fixedlen_limit_run::<64>(cx, 64),
+        1 => fixedlen_limit_run::<128>(cx, 128),
+        2 => fixedlen_limit_run::<255>(cx, 255),
+        _ => fixedlen_limit_run::<128>(cx, [32usize, 100, 127][cfg.below(3) as usize]),
+    }
+}
+
 fn zosorted_run(cx: &mut Run) {
     let how = cx.src.chan("cfg").below(4);
     // mostly a handful of strings; in a third of the runs enough of them that the boundary
@@ -3221,6 +3273,7 @@ enum Kind {
     MmapSimd,
     FixedQueue,
     FixedQueueDebug,
+    FixedLenLimit,
     AutoGrow,
     Sortable,
     SortableBulk,
@@ -3256,6 +3309,7 @@ impl Scenario for Sc {
             Kind::BitPacked64 => "BitPackedStringVec/u64".into(),
             Kind::Advanced(l) => format!("AdvancedStringVec/level{}", l),
             Kind::ZoSorted => "ZoSortedStrVec/build".into(),
+            Kind::FixedLenLimit => "FixedLenStrVec/arena_limit".into(),
         }
     }
     fn budget(&self, tier: Tier) -> u64 {
@@ -3268,6 +3322,8 @@ impl Scenario for Sc {
             Kind::FixedQueueDebug => (4_000, 120_000),
             Kind::FastVecU8 => (6_000, 180_000),
             Kind::ZoSorted => (3_000, 90_000),
+            // (each run pushes 16 MiB of strings: a handful of runs)
+            Kind::FixedLenLimit => (16, 160),
             // level 3 (prefix/substring sharing between entries) has by far the most state per push
             Kind::Advanced(3) => (40_000, 1_200_000),
             Kind::Sortable | Kind::FixedLen | Kind::BitPacked32 | Kind::BitPacked64 | Kind::Advanced(_) => (8_000, 240_000),
@@ -3300,6 +3356,7 @@ impl Scenario for Sc {
             Kind::BitPacked64 => bitpacked64_run(cx),
             Kind::Advanced(l) => advanced_run(cx, l),
             Kind::ZoSorted => zosorted_run(cx),
+            Kind::FixedLenLimit => fixedlen_limit(cx),
         }
     }
 }
@@ -3354,6 +3411,7 @@ fn main() {
         Kind::Advanced(2),
         Kind::Advanced(3),
         Kind::ZoSorted,
+        Kind::FixedLenLimit,
         // last: a defect of this constructor writes outside its own mapping
         Kind::MmapSimd,
     ];
